@@ -603,7 +603,10 @@ func (c StackCfg) effTimeout() time.Duration {
 		}
 	}
 	if c.TimeoutNs < 0 || c.TimeoutMs < 0 {
-		return time.Second // "use the default": only used to size waits
+		if c.isQueue() {
+			return time.Duration(math.MaxInt64) // the queue limiter arms no timer for a negative time-out: wait until served
+		}
+		return time.Second // pools: "use the default"; only used to size waits
 	}
 	if c.TimeoutNs != 0 {
 		return time.Duration(c.TimeoutNs)
